@@ -33,11 +33,19 @@ Neg(a, c) == Put(c, ENeg(reg[a]), (Lp - gh[a]) % Lp)
 \* decoding the canonical encoding of element k; the one-way map on a two-byte input
 Decode(k, c) == LET d == RistDecode(EncOf[k]) IN d[1] /\ Put(c, d[2], k)
 Map(b, c) == LET e == RistFromUniform(b) IN Put(c, e, GhostOf(e))
+\* scalar multiplication by a scalar class, on the representative, by double-and-add over the layer-A formulas: l' * P is
+\* the identity ELEMENT held as whatever 4-torsion representative the arithmetic produces
+RECURSIVE EMulSmall(_, _)
+EMulSmall(e, n) == IF n = 0 THEN ExtIdentity
+                   ELSE LET h == EMulSmall(e, n \div 2)  d == EAdd(h, h) IN IF n % 2 = 1 THEN EAdd(d, e) ELSE d
+ScalarClasses == {0, 1, 2, Lp - 1, Lp, Lp + 1}
+Mul(a, n, c) == Put(c, EMulSmall(reg[a], n), (gh[a] * n) % Lp)
 \* not an API call: the same element held in another representative (P + T, T in E[4]), as other histories produce it
 Rep(a, t) == Put(a, EAdd(reg[a], FromAffine(t)), gh[a])
 Next == /\ steps < MAXSTEPS
         /\ \/ \E a, b, c \in Regs : Add(a, b, c) \/ Sub(a, b, c)
            \/ \E a, c \in Regs : Neg(a, c)
+           \/ \E a, c \in Regs, n \in ScalarClasses : Mul(a, n, c)
            \/ \E k \in 0..(Lp - 1), c \in Regs : Decode(k, c)
            \/ \E b \in MAPINPUTS, c \in Regs : Map(b, c)
            \/ \E a \in Regs, t \in T4s : Rep(a, t)
